@@ -245,12 +245,17 @@ def corr_driver(ctx, sf):
                                     regs=o["regs"], dagger=o["dagger"]) for o in ops_]))
         ctx.count(f"driver:scalar:{cname}", spec, True, sample=dict(compiler=cname, spec=spec))
     for it in range(ctx.n(60, 1500)):
-        cname = COMPILERS[it % 3]
+        cname = (COMPILERS + ["Xcov", "Xunitary"])[it % 5]      # the X compilers hand non-empty kwargs down
         comp = compiler_db[cname]()
         n = 12
         ops_ = []
         for _ in range(rng.randint(1, 3)):
-            if rng.random() < 0.7:
+            if cname.startswith("X"):
+                kb = rng.choice([1, 2])
+                ops_.append(dict(cls="BipartiteGraphEmbed", regs=rng.sample(range(n), 2 * kb),
+                                 pars=[dec02.enc(np.round(rs.uniform(0.1, 1.0, (kb, kb)), 2))],
+                                 kw=dict(mean_photon_per_mode=0.2, edges=True)))
+            elif rng.random() < 0.7:
                 ops_.append(rand_matrix_op(rng, rs, n))
             else:
                 cls = rng.choice(pool)
@@ -776,8 +781,6 @@ def oracle_matrix_ops(ctx, sf):
             sv = np.linalg.svd(S, compute_uv=False)
             unsq = int(np.sum(np.abs(sv - 1) < 1e-9)) // 2
             sig = f"gaussian-transform:{skind}:vacuum={vac}"
-            if 2 <= unsq < k:      # the Bloch-Messiah factors themselves are wrong there (C17 known finding)
-                sig = "gaussian-transform:active-with-two-or-more-unsqueezed-modes"
             rp = dict(kind="matrix", mkind=kind, spec=spec, sig=sig, backend="gaussian")
             ctx.count(f"gaussian-transform:{skind}", dict(S=np.round(S, 6).tolist(), r=regs, v=vac), skind != "identity",
                       sample=dict(skind=skind, targets=regs, vacuum=vac))
@@ -1237,6 +1240,107 @@ def tolerance_case(ctx, sf, Un, mesh, rp):
                                                       f"{np.max(np.abs(W - Un)):.3g}", rp)
 
 
+# ------------------------------------------------------------------ options reach the nested decompositions (lesson 4)
+
+def nested_interferometers(cmds, kw, depth=0):
+    """all Interferometer commands reachable from `cmds`, expanding GaussianTransform with the same keywords"""
+    out = []
+    for c in cmds:
+        name = type(c.op).__name__
+        if name == "Interferometer":
+            out.append(c)
+        elif name == "GaussianTransform" and depth < 3:
+            out += nested_interferometers(c.op.decompose(c.reg, **{k: v for k, v in kw.items() if k == "mesh"}), kw, depth + 1)
+    return out
+
+
+def options_case(ctx, sf, spec, kw, rp):
+    """RULE: an option given to decompose() is carried by every interferometer the decomposition creates"""
+    try:
+        prog = dec02.build_prog(spec)
+        cmd = prog.circuit[0]
+        inter = nested_interferometers(cmd.op.decompose(cmd.reg, **kw), kw)
+    except ValueError:
+        ctx.tally("options:factorisation-rejected-input")
+        return
+    except Exception as e:  # noqa: BLE001
+        ctx.fail(f"raises:options:{spec['ops'][0]['cls']}:{type(e).__name__}", f"decompose(**{kw}) raised {type(e).__name__}: {e}", rp)
+        return
+    ctx.oracle_cases += 1
+    cls = spec["ops"][0]["cls"]
+    honoured = ["mesh"] + (["drop_identity", "tol"] if cls == "BipartiteGraphEmbed" else [])
+    for c in inter:
+        for k in honoured:
+            if k in kw and getattr(c.op, k) != kw[k]:
+                ctx.fail(f"option-not-honoured:{k}:{cls}",
+                         f"{cls}.decompose({k}={kw[k]!r}) creates an Interferometer on {[r.ind for r in c.reg]} with {k}={getattr(c.op, k)!r}", rp)
+                return
+
+
+def compiler_options_case(ctx, sf, spec, cname, rp):
+    """RULE: the keywords a compiler lists for a decomposition reach the operations that decomposition creates"""
+    from strawberryfields.compilers import compiler_db
+    comp = compiler_db[cname]()
+    try:
+        out = comp.decompose(list(dec02.build_prog(spec).circuit))
+    except Exception as e:  # noqa: BLE001
+        ctx.fail(f"raises:compiler-options:{cname}:{type(e).__name__}", f"{cname}.decompose raised {type(e).__name__}: {e}", rp)
+        return
+    ctx.oracle_cases += 1
+    kw = comp.decompositions[spec["ops"][0]["cls"]]
+    for c in out:
+        if type(c.op).__name__ == "Interferometer":
+            for k, v in kw.items():
+                if hasattr(c.op, k) and getattr(c.op, k) != v:
+                    ctx.fail(f"compiler-option-not-honoured:{cname}:{k}",
+                             f"{cname} lists {k}={v!r} for {spec['ops'][0]['cls']}, but the compiled Interferometer on "
+                             f"{[r.ind for r in c.reg]} has {k}={getattr(c.op, k)!r}", rp)
+                    return
+
+
+def oracle_options(ctx, sf):
+    from strawberryfields.compilers import compiler_db
+    rng, rs = ctx.rng, ctx.nprng(9)
+    for it in range(ctx.n(36, 400)):
+        cls = ("GraphEmbed", "BipartiteGraphEmbed", "GaussianTransform")[it % 3]
+        k = rng.choice([2, 3, 4]) if cls != "BipartiteGraphEmbed" else rng.choice([2, 4])
+        n = k + rng.choice([0, 8])
+        regs = rng.sample(range(n), k)
+        kw = dict(mesh=rng.choice(MESHES[1:6]))
+        if cls == "GraphEmbed":
+            A = np.triu(rs.integers(0, 2, (k, k)).astype(float), 1)
+            A = A + A.T
+            A[0, -1] = A[-1, 0] = 1.0
+            op = dict(cls=cls, regs=regs, pars=[dec02.enc(A)], kw=dict(mean_photon_per_mode=0.3))
+        elif cls == "BipartiteGraphEmbed":
+            B = np.round(rs.uniform(0.1, 1.0, (k // 2, k // 2)), 2)
+            op = dict(cls=cls, regs=regs, pars=[dec02.enc(B)], kw=dict(mean_photon_per_mode=0.3, edges=True,
+                                                                     drop_identity=rng.random() < 0.5))
+            kw.update(drop_identity=rng.random() < 0.5, tol=rng.choice([1e-5, 1e-7]))
+        else:
+            op = dict(cls=cls, regs=regs, pars=[dec02.enc(d17.symplectic_case(rs, k, rng.choice(["generic", "signs", "one_unsqueezed"])))],
+                      kw=dict(vacuum=False))
+        spec = dict(n=n, ops=[op])
+        rp = dict(kind="options", spec=spec, kw=kw)
+        ctx.count(f"options:{cls}:mesh={kw['mesh']}", dict(s=str(spec)[:300], k=kw), True, sample=dict(cls=cls, kw=kw, targets=regs))
+        options_case(ctx, sf, spec, kw, rp)
+    with_kw = [(c, name) for c in sorted(compiler_db) for name, v in (getattr(compiler_db[c], "decompositions", {}) or {}).items() if v]
+    for it in range(ctx.n(10, 100)):
+        if not with_kw:
+            break
+        cname, name = with_kw[it % len(with_kw)]
+        if name != "BipartiteGraphEmbed":
+            ctx.tally(f"options:compiler-kwargs-for-unmodelled-class:{name}")
+            continue
+        kb = rng.choice([1, 2, 3])
+        spec = dict(n=8, ops=[dict(cls=name, regs=rng.sample(range(8), 2 * kb),
+                                   pars=[dec02.enc(np.round(rs.uniform(0.1, 1.0, (kb, kb)), 2))],
+                                   kw=dict(mean_photon_per_mode=0.3, edges=True))])
+        rp = dict(kind="compiler-options", spec=spec, compiler=cname)
+        ctx.count(f"options:compiler:{cname}", dict(s=str(spec)[:300]), True)
+        compiler_options_case(ctx, sf, spec, cname, rp)
+
+
 # ================================================================== entry points
 
 def run_corpus(ctx, sf):
@@ -1263,6 +1367,7 @@ def run(ctx, sf):
     oracle_history(ctx, sf)
     oracle_holes_sharing(ctx, sf)
     oracle_tolerance(ctx, sf)
+    oracle_options(ctx, sf)
     sf.hbar = 2.0
 
 
@@ -1296,6 +1401,10 @@ def replay_one(ctx, sf, rp):
         driver_history_case(ctx, sf, rp["spec"], rp["compiler"], rp)
     elif kind == "shared":
         compare_to_reference(ctx, sf, rp["spec"], rp["backend"], rp["hbar"], rp, "shared-holes:replay", "replay")
+    elif kind == "options":
+        options_case(ctx, sf, rp["spec"], rp["kw"], rp)
+    elif kind == "compiler-options":
+        compiler_options_case(ctx, sf, rp["spec"], rp["compiler"], rp)
     elif kind == "tolerance":
         tolerance_case(ctx, sf, np.asarray(dec02.dec(rp["U"])), rp["mesh"], rp)
     elif kind == "matrix":
